@@ -8,12 +8,20 @@ def run_items(wmod, rmod, its):
     """write the items with a fresh writer, read them back with a fresh reader -> (write results, bytes, outputs, position, remaining)"""
     w = wmod.EoWriter()
     rs = []
-    for it in its:
+    mid = None
+    for k, it in enumerate(its):
+        if k == len(its) // 2 and k > 0:
+            # a caller takes the output so far and starts reading it while the writer goes on being used
+            mid = w.to_bytearray()
+            midr = rmod.EoReader(mid)
+            snap = list(mid)
         try:
             apply_wop(w, item_wop(it))
             rs.append(('ok', None))
         except Exception as e:
-            rs.append(('err', exc_class(e)))
+            rs.append(('err', 'EAliased' if isinstance(e, BufferError) else exc_class(e)))
+    if mid is not None and (list(mid) != snap or midr.remaining != len(snap)) and rs[-1][0] == 'ok':
+        rs[-1] = ('err', 'EAliased')
     data = list(w.to_bytearray())
     r = rmod.EoReader(bytes(data))
     outs = []
@@ -29,6 +37,8 @@ def run_items(wmod, rmod, its):
 def oracle(its, res):
     rs, data, outs, pos, rem = res
     for i, (it, r) in enumerate(zip(its, rs)):
+        if r[0] != 'ok' and r[1] == 'EAliased':
+            return f"items {its}: the output taken by to_bytearray() after item #{len(its) // 2 - 1} shares the writer's buffer (later writes changed it or were blocked by it)"
         if r[0] != 'ok':
             return f"valid item #{i} {it} was rejected by the writer ({r[1]})"
     for i, (it, o) in enumerate(zip(its, outs)):
@@ -93,7 +103,7 @@ def run(tier):
     C.stream('oracle.roundtrip', len(cases), len({repr(c[0]) for c in cases if len(c[0]) > 1}), sample=dict(items=[list(i) for i in lists[nb + 2][:5]]))
     C.cov['distribution'] = dict(item_lists=len(cases), bounded_exhaustive_pairs=nb, items=sum(len(c[0]) for c in cases),
                                  by_kind={k: sum(1 for c in cases for i in c[0] if i[0] == k) for k in SAMPLE})
-    term = lambda c: (f"({clist(c[0], citem)}, ({clist(c[1][0], lambda r: '(Ok tt)' if r[0] == 'ok' else f'(Err {r[1]})')}, "
+    term = lambda c: (f"({clist(c[0], citem)}, ({clist(c[1][0], lambda r: '(Ok tt)' if r[0] == 'ok' else f"(Err {'EUnexpected' if r[1] == 'EAliased' else r[1]})")}, "
                       f"{clist(c[1][1])}, {clist(c[1][2], crout)}))")
     specs = [dict(label='M.items_run', ty='list item * (list (res unit) * list Z * list rout)', cases=cases, term=term, chk="items_check",
                   nontrivial=lambda c: len(c[0]) > 1)]
